@@ -6,6 +6,7 @@ import itertools, math, re
 from decimal import Decimal, ROUND_CEILING, ROUND_FLOOR
 from fractions import Fraction
 from vlib import common
+from vlib import orderpass
 from vlib.common import Report, Violation, HarnessError, Acc, pmap, merge
 
 PID = 'C06'
@@ -268,6 +269,12 @@ def run(tier):
     rep.assumptions += ['noise aside = the duration truncated to five decimals of its exact binary value',
                         'value equality for round_up_str_num (leading zeros of the input integer part may be kept)',
                         'parse_hms of text with a fraction is compared within 1e-12 relative (sum of doubles), integer-only text exactly and as int']
+    UP = 'athlib.utils:'
+    oc = [(UP + 'round_up_str_num', a) for a in (('9.995', 2), ('0.001', 2), ('12', 0), ('.5', 0), ('99.99999', 3), ('1.23456789', 5), ('abc', 2))]
+    oc += [(UP + 'format_seconds_as_time', a) for a in ((59.999, 2), (60, 0), (3599.5, 0), (7199.5, 0), (0.001, 3), (65.00000000000001, 2), (359999.5, 0), (12.3, 7))]
+    oc += [(UP + 'parse_hms', (t,)) for t in ('1:02:03.5', '59.99', '2:03', '1:60', '', ':', '1,5', 12, 12.5, '-1:00', '100:00:00')]
+    oc += [(UP + 'is_hand_timing', (t,)) for t in ('12.3', '12.34', 12.3, '1:02.3')]
+    orderpass.part(rep, oc, 'formatting call-order pass')
     return rep.finish()
 
 
